@@ -86,6 +86,12 @@ func sliceElems(v ssa.Value) (elems []ssa.Value, ok bool) {
 			ok = false
 		case *ssa.Slice:
 			arr, isAlloc := x.X.(*ssa.Alloc)
+			// make([]T, 0, constant) is a fresh array sliced to length 0: an empty start
+			if isAlloc && arr.Comment == "makeslice" && x.Low == nil && x.High != nil {
+				if hc, isC := x.High.(*ssa.Const); isC && hc.Value != nil && hc.Int64() == 0 {
+					return
+				}
+			}
 			if !isAlloc || x.Low != nil || x.High != nil {
 				ok = false
 				return
@@ -428,3 +434,160 @@ func storesToField(w *World, fn *ssa.Function, base, field string) []*ssa.Store 
 
 // fnShort prints a function's package-relative name.
 func fnShort(w *World, fn *ssa.Function) string { return w.Name(fn) }
+
+// isSortCall: sort.Slice(x, less) or slices.SortFunc(x, cmp).
+func isSortCall(cc *ssa.CallCommon) bool {
+	n := calleeName(cc)
+	return n == "sort.Slice" || strings.HasPrefix(n, "slices.SortFunc")
+}
+
+// sortDirection: direction and key of the ordering a sort call imposes.
+func sortDirection(w *World, cc *ssa.CallCommon) (dir, field, why string) {
+	if calleeName(cc) == "sort.Slice" {
+		cmp := closureArg(cc, 1)
+		if cmp == nil {
+			return "", "", "comparator is not a function literal"
+		}
+		return comparatorDirection(w, cmp)
+	}
+	if len(cc.Args) < 2 {
+		return "", "", "sort call without comparator"
+	}
+	var f *ssa.Function
+	switch x := cc.Args[1].(type) {
+	case *ssa.Function:
+		f = x
+	case *ssa.MakeClosure:
+		f, _ = x.Fn.(*ssa.Function)
+	case *ssa.ChangeType:
+		f, _ = x.X.(*ssa.Function)
+	}
+	if f == nil {
+		return "", "", "comparator is not a known function"
+	}
+	return threeWayDirection(w, f)
+}
+
+// threeWayDirection decides a comparator cmp(a, b) int by evaluation: for each relation of the one projection it compares
+// (a.f < b.f, =, >) the sign it returns. Ascending: negative, zero, positive; descending: the reverse.
+func threeWayDirection(w *World, fn *ssa.Function) (dir, field, why string) {
+	if len(fn.Params) < 2 || len(fn.Blocks) == 0 {
+		return "", "", "comparator has fewer than two parameters"
+	}
+	c := NewCanon(w)
+	np := len(fn.Params)
+	pa, pb := "P"+itoa(np-2), "P"+itoa(np-1)
+	proj := func(s, p string) (string, bool) {
+		if strings.HasPrefix(s, p+".") {
+			return s[len(p):], true
+		}
+		return "", false
+	}
+	sign := func(rel int) (int, string, bool) {
+		b := fn.Blocks[0]
+		f := ""
+		for steps := 0; steps < 32; steps++ {
+			switch t := b.Instrs[len(b.Instrs)-1].(type) {
+			case *ssa.If:
+				bo, ok := t.Cond.(*ssa.BinOp)
+				if !ok {
+					return 0, "", false
+				}
+				l, r := c.S(bo.X), c.S(bo.Y)
+				fl, okA := proj(l, pa)
+				fr, okB := proj(r, pb)
+				swapped := false
+				if !okA || !okB {
+					fl, okA = proj(l, pb)
+					fr, okB = proj(r, pa)
+					swapped = true
+				}
+				if !okA || !okB || fl != fr {
+					return 0, "", false
+				}
+				if f != "" && f != fl {
+					return 0, "", false
+				}
+				f = fl
+				rr := rel // relation of left operand to right operand
+				if swapped {
+					rr = -rel
+				}
+				var val bool
+				switch bo.Op {
+				case token.LSS:
+					val = rr < 0
+				case token.LEQ:
+					val = rr <= 0
+				case token.GTR:
+					val = rr > 0
+				case token.GEQ:
+					val = rr >= 0
+				case token.EQL:
+					val = rr == 0
+				case token.NEQ:
+					val = rr != 0
+				default:
+					return 0, "", false
+				}
+				if val {
+					b = b.Succs[0]
+				} else {
+					b = b.Succs[1]
+				}
+			case *ssa.Jump:
+				b = b.Succs[0]
+			case *ssa.Return:
+				switch x := t.Results[0].(type) {
+				case *ssa.Const:
+					if x.Value == nil {
+						return 0, "", false
+					}
+					v := x.Int64()
+					switch {
+					case v < 0:
+						return -1, f, true
+					case v > 0:
+						return 1, f, true
+					}
+					return 0, f, true
+				case *ssa.Call:
+					if strings.HasPrefix(calleeName(x.Common()), "cmp.Compare") && len(x.Call.Args) == 2 {
+						l, r := c.S(x.Call.Args[0]), c.S(x.Call.Args[1])
+						if fl, ok := proj(l, pa); ok {
+							if fr, ok := proj(r, pb); ok && fl == fr {
+								return rel, fl, true
+							}
+						}
+						if fl, ok := proj(l, pb); ok {
+							if fr, ok := proj(r, pa); ok && fl == fr {
+								return -rel, fl, true
+							}
+						}
+					}
+				}
+				return 0, "", false
+			default:
+				return 0, "", false
+			}
+		}
+		return 0, "", false
+	}
+	lt, f1, ok1 := sign(-1)
+	eq, _, ok2 := sign(0)
+	gt, f3, ok3 := sign(1)
+	if !ok1 || !ok2 || !ok3 {
+		return "", "", "three-way comparator could not be evaluated"
+	}
+	field = f1
+	if field == "" {
+		field = f3
+	}
+	switch {
+	case lt < 0 && eq == 0 && gt > 0:
+		return "asc", "[#]" + field, ""
+	case lt > 0 && eq == 0 && gt < 0:
+		return "desc", "[#]" + field, ""
+	}
+	return "", "", "three-way comparator is not a strict ordering on one projection"
+}
